@@ -47,7 +47,7 @@ manifest = {
  "hooks": {
   "guard": "verif",
   "enable": "go test -tags verif (the harness module replaces github.com/jeroenrinzema/psql-wire with /repo and every check rebuilds its test binary with -tags verif)",
-  "baseline_off_cmd": "cd /repo && GOFLAGS=-mod=mod GOPROXY=off GOSUMDB=off GOTOOLCHAIN=local go test -json -vet=off -count=1 -timeout 25m ./...",
+  "baseline_off_cmd": "cd /repo && GOPROXY=off GOSUMDB=off GOTOOLCHAIN=local go test -json -vet=off -count=1 -timeout 25m ./...",
   "source_commits": hooks_commits,
   "add_only": True,
  },
